@@ -1,5 +1,6 @@
 //! Containers, allocators, relocation, names: C14, C15, C16, C19 (depends on `bb` crates only: also runs under Miri).
 extern crate iceoryx2_bb_loggers;
+mod c14;
 mod c15;
 mod c16;
 
@@ -7,6 +8,7 @@ fn main() {
     let args = vkit::Args::parse();
     iceoryx2_log::set_log_level(iceoryx2_log::LogLevel::Fatal);
     let rep = match args.sub.as_str() {
+        "c14" => c14::run(&args),
         "c15" => c15::run(&args),
         "c16" => c16::run(&args),
         "warmup" => return,
